@@ -71,6 +71,121 @@ def z3check(assertions, timeout_ms, stats=None, label=None, tactic=None):
     return r, (s.model() if r == "sat" else None)
 
 
+NL_PORTFOLIO = [({"arith.nl.grobner": False}, 0.2), ({"random_seed": 7, "smt.random_seed": 7}, 0.2), ({"arith.nl.grobner": False, "random_seed": 3, "smt.random_seed": 3}, 0.2), ({}, 0.4),
+                ({"random_seed": 11, "smt.random_seed": 11, "arith.nl.tangents": False}, 0.2), ({"arith.nl.grobner": False, "random_seed": 23, "smt.random_seed": 23}, 0.2)]
+
+
+def z3check_portfolio(assertions, timeout_ms, stats=None, label=None, portfolio=NL_PORTFOLIO):
+    """Non-linear arithmetic queries have high run-time variance across z3 heuristics: try a few configurations in
+    turn, each with a share of the time budget.  unsat/sat from any configuration is final."""
+    import z3
+    last = ("unknown", None)
+    for params, share in portfolio:
+        s = z3.Solver()
+        s.set("timeout", int(timeout_ms * share))
+        for k, v in params.items():
+            s.set(k, v)
+        for a in assertions:
+            s.add(a)
+        t = time.time()
+        try:
+            r = str(s.check())
+        except z3.Z3Exception:
+            r = "unknown"
+        dt = time.time() - t
+        if stats is not None:
+            stats.q[r if r in stats.q else "unknown"] += 1
+            stats.solver_s += dt
+            try:
+                sx = s.sexpr()
+                stats.digests.add(hashlib.sha1(sx.encode()).hexdigest()[:16])
+                if label and len(stats.samples) < 3 and r != "unknown":
+                    stats.samples.append({"obligation": label, "result": r, "solver_s": round(dt, 3), "z3_params": params, "smt2_head": sx[:600]})
+            except Exception:
+                pass
+        if r in ("sat", "unsat"):
+            return r, (s.model() if r == "sat" else None)
+        last = (r, None)
+    return last
+
+
+def z3check_race(assertions, timeout_ms, stats=None, label=None, portfolio=NL_PORTFOLIO):
+    """Same portfolio, but the configurations race in forked processes; the first decisive answer wins.  A `sat` answer
+    is re-derived in-process with the winning configuration to obtain the model."""
+    import z3
+    import select
+    kids = []
+    t0 = time.time()
+    for i, (params, _share) in enumerate(portfolio):
+        r_fd, w_fd = os.pipe()
+        pid = os.fork()
+        if pid == 0:
+            os.close(r_fd)
+            res = "unknown"
+            try:
+                s = z3.Solver()
+                s.set("timeout", int(timeout_ms))
+                for k, v in params.items():
+                    s.set(k, v)
+                for a in assertions:
+                    s.add(a)
+                res = str(s.check())
+            except BaseException:
+                res = "unknown"
+            try:
+                os.write(w_fd, res.encode())
+            finally:
+                os._exit(0)
+        os.close(w_fd)
+        kids.append((pid, r_fd, i))
+    winner, answer = None, "unknown"
+    open_fds = {fd: (pid, i) for pid, fd, i in kids}
+    deadline = t0 + timeout_ms / 1000.0 + 15
+    while open_fds and time.time() < deadline:
+        rl, _, _ = select.select(list(open_fds), [], [], 0.5)
+        for fd in rl:
+            data = os.read(fd, 64).decode()
+            pid, i = open_fds.pop(fd)
+            os.close(fd)
+            if data in ("sat", "unsat") and winner is None:
+                winner, answer = i, data
+        if winner is not None:
+            break
+    for pid, fd, i in kids:
+        try:
+            os.kill(pid, 9)
+        except OSError:
+            pass
+        try:
+            os.waitpid(pid, 0)
+        except OSError:
+            pass
+        if fd in open_fds:
+            os.close(fd)
+    dt = time.time() - t0
+    if stats is not None:
+        stats.q[answer if answer in stats.q else "unknown"] += 1
+        stats.solver_s += dt
+        try:
+            sx = z3.And(*assertions).sexpr() if assertions else ""
+            stats.digests.add(hashlib.sha1(sx.encode()).hexdigest()[:16])
+            if label and len(stats.samples) < 3 and answer != "unknown":
+                stats.samples.append({"obligation": label, "result": answer, "solver_s": round(dt, 3), "z3_params": portfolio[winner][0], "smt2_head": sx[:600]})
+        except Exception:
+            pass
+    if answer == "sat":
+        s = z3.Solver()
+        s.set("timeout", int(timeout_ms))
+        for k, v in portfolio[winner][0].items():
+            s.set(k, v)
+        for a in assertions:
+            s.add(a)
+        if str(s.check()) == "sat":
+            return "sat", s.model()
+        return "unknown", None
+    return answer, None
+
+
 # --------------------------------------------------------------------------------------------- obligations
 class Ob:
     """One unit of work executed in its own forked process.
